@@ -16,6 +16,55 @@ STRINGS = ["'cafe\u0301'", "'\u212b\u304b\u3099'", "'s'", '"d"', "''", "'a b'", 
 NUMBERS = ['0', '1', '42', '1.5', '0x1F', '10', '3.0']
 
 
+_METADATA_NAMES: list[str] | None = None
+
+
+def metadata_names() -> list[str]:
+	"""Identifiers that coincide with a piece of the tree's own metadata: the names of the terminals and rules of the grammar as
+	the lark parser holds them (NAME, STRING, DEC_NUMBER, COMMENT, name, number, string, var, file_input …), each as written, in
+	lower and in upper case, plus the keys of the stored form. Read once from the real parser; a name the grammar does not take
+	as an identifier is left out."""
+	global _METADATA_NAMES
+	if _METADATA_NAMES is None:
+		import keyword
+		import shutil
+		import tempfile
+		from harness import common
+		names: list[str] = []
+		d = tempfile.mkdtemp(prefix='tranp-verif-pygen-')
+		try:
+			from rogw.tranp.syntax.ast.parser import SyntaxParser
+			app = common.MemApp(d)
+			parser = app.resolve(SyntaxParser)
+			lk = parser.dirty_get_origin()
+			raw = [str(t.name) for t in lk.terminals] + sorted({str(r.origin.name) for r in lk.rules}) + ['name', 'value', 'children', 'source_map', 'size']
+			for n in raw:
+				if n.startswith('__'):  # generated helper rules and anonymous terminals
+					continue
+				for v in (n, n.lower(), n.upper()):
+					if v.isidentifier() and not keyword.iskeyword(v) and v not in names:
+						names.append(v)
+			app.source = '\n'.join(f'{v}: int = {v}.{v}' for v in names) + '\n'
+			try:
+				parser(app.main)
+			except Exception:  # noqa: BLE001 - keep only the names that parse one by one
+				kept = []
+				for v in names:
+					app.source = f'{v}: int = {v}.{v}\n'
+					try:
+						parser(app.main)
+						kept.append(v)
+					except Exception:  # noqa: BLE001
+						pass
+				names = kept
+		except Exception:  # noqa: BLE001 - no parser: the terminal names every lark python grammar has
+			names = ['NAME', 'name', 'STRING', 'string', 'DEC_NUMBER', 'dec_number', 'COMMENT', 'comment', 'number', 'var']
+		finally:
+			shutil.rmtree(d, ignore_errors=True)
+		_METADATA_NAMES = names
+	return _METADATA_NAMES
+
+
 class Gen:
 	def __init__(self, rng: random.Random, unit: str = '\t', max_depth: int = 3) -> None:
 		self.rng = rng
@@ -25,6 +74,10 @@ class Gen:
 	# -- expressions --------------------------------------------------------------------------------------------
 
 	def name(self) -> str:
+		if self.rng.random() < 0.07:
+			# an identifier spelled like a piece of the tree's metadata (its own terminal type NAME / name, another terminal, a rule)
+			names = metadata_names()
+			return self.rng.choice(names[:12] if self.rng.random() < 0.5 else names)
 		return self.rng.choice(NAMES)
 
 	def atom(self, d: int) -> str:
